@@ -117,12 +117,18 @@ Definition fresh_of (rs : list frule) : list elabel :=
   match split_last rs with Some (tbl, _) => map fr_lhs tbl | None => [] end.
 
 (** grammar-level glue: the rules of the new grammar are exactly the rules returned by the
-    calls of factorize_rule (as a multiset), and ALL fresh names of the grammar are pairwise
-    distinct and collide with no label of the input grammar *)
+    calls of factorize_rule (as a multiset); ALL fresh names of the grammar are pairwise
+    distinct and collide with NO label of the input grammar (whether or not it occurs in the rule
+    that was split or in an earlier rule); across the whole new grammar every fresh nonterminal
+    has exactly one rule and labels exactly one edge *)
+Definition rules_with_lhs (l : elabel) (rs : list frule) : nat :=
+  length (filter (fun c => str_eqb (el_name (fr_lhs c)) (el_name l)) rs).
 Definition glue_ok (g : fhrg) (outs : list (list frule)) (gnew : fhrg) : bool :=
   perm_b frule_eqb (concat outs) (fh_all_rules gnew)
   && snodup (map el_name (flat_map fresh_of outs))
-  && forallb (fun l => negb (smem (el_name l) (map el_name (fh_elabels g)))) (flat_map fresh_of outs).
+  && forallb (fun l => negb (smem (el_name l) (map el_name (fh_elabels g)))
+                       && (rules_with_lhs l (fh_all_rules gnew) =? 1)
+                       && (count_label l (fh_all_rules gnew) =? 1)) (flat_map fresh_of outs).
 
 Definition pairs_same (a b : list (nat * nat)) : bool := leqb pair_eqb a b.
 Definition factors_same (a b : list (str * nat)) : bool :=
@@ -146,11 +152,11 @@ Definition fz_gram_check
   let g := fhrg_of_w gw in
   let gnew := fhrg_of_w gnw in
   let outs := map (map frule_of_w) outsw in
-  if negb ((length orc =? length (fh_all_rules g)) && forallb wf_frule (fh_all_rules g)
-           && forallb (fun p => ftd_wfb (fst p)) orc) then 20
+  if negb (forallb wf_frule (fh_all_rules g) && forallb (fun p => ftd_wfb (fst p)) orc) then 20
   else match code with
        | 0 =>
-         if negb (elabel_eqb (fh_start gnew) (fh_start g)) then 6
+         if negb (length orc =? length (fh_all_rules g)) then 20
+         else if negb (elabel_eqb (fh_start gnew) (fh_start g)) then 6
          else if negb (glue_ok g outs gnew) then 1
          else if negb (Nat.odd skip) && negb (forallb (Nat.eqb m) used) then 7
          else if is_fgg && negb (pairs_same doms doms' && factors_same facs facs') then 9
